@@ -8,7 +8,8 @@ namespace PP
 open Doc
 
 /-- Classic documents (C05): text, concat, nest, group, line / softline (any `flat_choice` whose broken
-alternative is `hardline` and whose flat alternative is a text or nil), hardline, always_break, annotate. -/
+alternative is `hardline` and whose flat alternative is a text or nil), hardline, always_break, annotate, align
+(hence `hang`). -/
 inductive Classic : Doc → Prop
   | nil : Classic .nil
   | text : Classic (.text s)
@@ -20,6 +21,7 @@ inductive Classic : Doc → Prop
   | softline : Classic (.choice l .hardline .nil)
   | ab : Classic d → Classic (.ab d)
   | ann : Classic d → Classic (.ann a d)
+  | align : Classic d → Classic (.align d)
 
 def ClassicItem : Item → Prop
   | .doc d => Classic d
@@ -56,7 +58,7 @@ def fitsE (left : Int) (stk : List Pair) : Bool :=
       | .hardline => true
       | .choice l b f => fitsE left ((m, pick m l b f) :: r)
       | .group d => fitsE left ((.flat, d) :: r)
-      | .align _ => false
+      | .align d => fitsE left ((m, d.normalize) :: r)
       | .pstr _ => false
 termination_by pSize stk
 decreasing_by
@@ -66,6 +68,7 @@ decreasing_by
     | omega
     | (have := Doc.sizes_le_sizesF ‹List Doc›; omega)
     | (exact Nat.add_lt_add_right (size_pick _ _ _ _) _)
+    | (have := Doc.size_normalize ‹Doc›; omega)
 
 theorem fitsE_nonneg {left stk} (h : fitsE left stk = true) : 0 ≤ left := by
   unfold fitsE at h; split at h
@@ -86,6 +89,18 @@ theorem fitsE_hard : fitsE left ((m, .hardline) :: r) = true := by rw [fitsE]; s
 theorem fitsE_choice {l b f} : fitsE left ((m, .choice l b f) :: r) = fitsE left ((m, pick m l b f) :: r) := by
   rw [fitsE]; simp [Int.not_lt.mpr h0]
 theorem fitsE_group {d} : fitsE left ((m, .group d) :: r) = fitsE left ((.flat, d) :: r) := by rw [fitsE]; simp [Int.not_lt.mpr h0]
+theorem fitsE_align {d} : fitsE left ((m, .align d) :: r) = fitsE left ((m, d.normalize) :: r) := by rw [fitsE]; simp [Int.not_lt.mpr h0]
+/-- the document `align(d)` evaluates to — `Nest(column - indent, d).normalize()` — is read by the erased predicate as
+the normalised `d`, whatever the column and the indentation are -/
+theorem fitsE_alignAt {k d} : fitsE left ((m, alignAt k d) :: r) = fitsE left ((m, d.normalize) :: r) := by
+  unfold alignAt
+  simp only [Doc.normalize]
+  split
+  · rename_i hab
+    generalize Doc.normalize d = n at *
+    cases n <;> simp [Doc.isAb] at hab
+    rw [fitsE_ab h0, fitsE_ab h0]
+  · rw [fitsE_nest h0]
 end unfold
 
 def strip : List Triple → List Pair
@@ -118,6 +133,84 @@ theorem AllClassic.pushAll {i m ds r} (h1 : ∀ d ∈ ds, Classic d) (h2 : AllCl
 theorem classic_pick {m l b f} (h : Classic (.choice l b f)) : Classic (pick m l b f) := by
   cases h <;> cases m <;> cases l <;> simp [pick, Doc.normalize] <;> constructor
 
+/-! ### classic documents are closed under `normalize` (what `align` evaluates to is normalised when it is read) -/
+
+theorem Classic.unAb {n : Doc} (h : Classic n) : Classic n.unAb := by
+  cases h <;> simp only [Doc.unAb] <;> first | assumption | constructor <;> assumption
+theorem Classic.wrapAb {p : Bool} {n : Doc} (h : Classic n) : Classic (Doc.wrapAb p n) := by
+  cases p <;> simp only [Doc.wrapAb] <;> first | exact h | exact .ab h
+
+theorem classic_catStep {n : Doc} {acc : List Doc × Bool} (hn : Classic n) (ha : ∀ x ∈ acc.1, Classic x) :
+    ∀ x ∈ (Doc.catStep n acc).1, Classic x := by
+  intro x hx
+  cases hn <;> simp only [Doc.catStep, List.mem_append, List.mem_singleton] at hx
+  all_goals first
+    | exact ha x hx
+    | (rcases hx with hx | hx
+       · exact ha x hx
+       · first
+           | (subst hx; constructor <;> assumption)
+           | (rename_i hds; exact hds x hx)
+           | (subst hx; assumption))
+
+mutual
+theorem classic_normalize : (d : Doc) → Classic d → Classic d.normalize
+  | .nil, _ => by simp only [Doc.normalize]; exact .nil
+  | .text s, _ => by simp only [Doc.normalize]; split <;> constructor
+  | .hardline, _ => by simp only [Doc.normalize]; exact .hardline
+  | .choice l b f, h => by cases h <;> simp only [Doc.normalize] <;> constructor
+  | .align d, h => by simpa only [Doc.normalize] using h
+  | .pstr sp, h => by cases h
+  | .fill ds, h => by cases h
+  | .ann a d, h => by
+      cases h with
+      | ann hd => simp only [Doc.normalize]; exact .ann (classic_normalize d hd)
+  | .ab d, h => by
+      cases h with
+      | ab hd =>
+        have := classic_normalize d hd
+        simp only [Doc.normalize]; split
+        · exact this
+        · exact .ab this
+  | .nest j d, h => by
+      cases h with
+      | nest hd =>
+        have := classic_normalize d hd
+        simp only [Doc.normalize]; split
+        · exact .ab (.nest this.unAb)
+        · exact .nest this
+  | .group d, h => by
+      cases h with
+      | group hd =>
+        have := classic_normalize d hd
+        simp only [Doc.normalize]; split
+        · exact this
+        · split
+          · exact .nil
+          · exact .group this
+  | .cat ds, h => by
+      cases h with
+      | cat hds =>
+        have := classic_normCat ds ([], false) hds (by simp)
+        simp only [Doc.normalize]
+        generalize Doc.normCat ds ([], false) = r at this
+        obtain ⟨xs, p⟩ := r
+        match xs with
+        | [] => exact .nil
+        | [x] => exact (this x (by simp)).wrapAb
+        | x :: y :: zs => exact Classic.wrapAb (.cat this)
+theorem classic_normCat : (ds : List Doc) → (acc : List Doc × Bool) → (∀ d ∈ ds, Classic d) → (∀ x ∈ acc.1, Classic x) →
+    ∀ x ∈ (Doc.normCat ds acc).1, Classic x
+  | [], acc, _, ha => by simpa only [Doc.normCat] using ha
+  | d :: ds, acc, hds, ha => by
+      simp only [Doc.normCat]
+      exact classic_normCat ds _ (fun x hx => hds x (by simp [hx]))
+        (classic_catStep (classic_normalize d (hds d (by simp))) ha)
+end
+
+theorem classic_alignAt {k : Int} {d : Doc} (h : Classic d) : Classic (alignAt k d) :=
+  classic_normalize _ (.nest h)
+
 /-- on classic stacks the fast predicate never looks at indentation, nest amounts or annotation pops -/
 theorem fitsFast_eq_fitsE (cfg : Cfg) (mw left : Int) (stk : List Triple) (hc : AllClassic stk) :
     fitsFast cfg mw left stk = fitsE left (strip stk) := by
@@ -149,7 +242,12 @@ theorem fitsFast_eq_fitsE (cfg : Cfg) (mw left : Int) (stk : List Triple) (hc : 
     have hg : Classic (.group d) := hc.head
     cases hg with
     | group hd => simpa [fitsE_group (Int.not_lt.mp hl)] using ih (AllClassic.cons (it := .doc d) hd hc.tail)
-  | case14 left hl i m r d ih => exact absurd (hc.head : Classic (.align d)) (by intro h; cases h)
+  | case14 left hl i m r d ih =>
+    have ha : Classic (.align d) := hc.head
+    cases ha with
+    | align hd =>
+      simpa [fitsE_align (Int.not_lt.mp hl), fitsE_alignAt (Int.not_lt.mp hl)]
+        using ih (AllClassic.cons (it := .doc _) (classic_alignAt hd) hc.tail)
   | case15 left hl i m r sp ih => exact absurd (hc.head : Classic (.pstr sp)) (by intro h; cases h)
 
 /-- the smart predicate is at least as strict as the fast one -/
@@ -253,7 +351,12 @@ theorem fitsE_mono (left : Int) (stk stk' : List Pair) (hrel : RelP stk' stk)
       rw [fitsE_group (Int.not_lt.mp hl)]
       cases hc with
       | group hd => exact ih _ (.cons (by simp [Mode.le]) hd hr) h
-  | case13 left hl m r d => simp at h
+  | case13 left hl m r d ih =>
+    cases hrel with
+    | cons hm hc hr =>
+      rw [fitsE_align (Int.not_lt.mp hl)]
+      cases hc with
+      | align hd => exact ih _ (.cons hm (classic_normalize d hd) hr) h
   | case14 left hl m r sp => simp at h
 
 end PP
